@@ -7,7 +7,7 @@ scale obligations that let TLC evaluate it at 16 ticks per unit instead of 2^60 
 TLC (MC_DoubleSign.tla) evaluates the operators on boundary vectors (timestamps at 0, +-1, +-7, +-8, +-9, +-20 units
 from now with +-1 ns offsets, i.e. also beyond the duration range; thresholds from MinDur to MaxDur); each
 vector is converted to time.Time / time.Duration and run through the real SyncedToEmit /
-DetectParallelInstance in six representations of the same instants (location, monotonic reading, construction;
+DetectParallelInstance in nine representations of the same instants (location, monotonic reading, construction, origin moved to before the zero instant;
 unset timestamps as the zero instant in five representations), and the set of distinct verdicts/waits must be the
 singleton TLC gives (pattern R, stateless)."""
 import json
@@ -106,7 +106,7 @@ def run(c):
                     "no peer / P2P sync unfinished: an error is required, the wait is not constrained (DESIGN.md section 7); the wait returned "
                     "together with a permission is not constrained either",
                     "which error is returned is not compared",
-                    "every vector is run in six representations of the same instants (local / UTC / fixed-zone location, rebuilt from "
-                    "Unix seconds, derived from time.Now() with monotonic readings, mixed); the set of distinct outcomes must be the "
+                    "every vector is run in nine representations of the same instants (local / UTC / fixed-zone location, rebuilt from "
+                    "Unix seconds, derived from time.Now() with monotonic readings, mixed, and the whole vector moved so that now lies 1 h before the zero instant, in the year -100, at Unix -2^40 s); the set of distinct outcomes must be the "
                     "singleton TLC gives; an unset timestamp is the zero instant in five representations and, for the specification, "
                     "a timestamp more than 50 units in the past"])
